@@ -118,6 +118,19 @@ type gateCall struct {
 	performed chan struct{} // closed by the call after the inner operation ran
 	relB      chan struct{} // writes only: closed by the harness to let Write return
 	isDone    atomic.Bool
+	partial   atomic.Bool // writes only: the writer is lost half way through the inner Write (crash during the write)
+}
+
+// dyingReader delivers its data and then fails instead of reporting EOF: the writing process is lost mid-write.
+type dyingReader struct{ data []byte }
+
+func (r *dyingReader) Read(p []byte) (int, error) {
+	if len(r.data) == 0 {
+		return 0, errors.New("writer lost")
+	}
+	n := copy(p, r.data)
+	r.data = r.data[n:]
+	return n, nil
 }
 
 var errGateDead = errors.New("storage abandoned (crash)")
@@ -190,6 +203,11 @@ func (g *gateLoc) Write(path string, data io.Reader) (string, error) {
 	case <-c.relA:
 	case <-g.dead:
 		return "", errGateDead
+	}
+	if c.partial.Load() {
+		_, err := g.inner.Write(path, &dyingReader{data: b[:len(b)/2]})
+		close(c.performed)
+		return "", err
 	}
 	uri, err := g.inner.Write(path, strings.NewReader(string(b)))
 	close(c.performed)
